@@ -57,7 +57,7 @@ def run(chk):
                 chk.add(Finding("R14-cover", "R14-cover::comparator", "sort_objectlist_full does not order by get_name(a).cmp(get_name(b)) (ascending by name)", cb.where()))
     chk.rule("R14-cmp", "comparator of sort_objectlist_full compares the two elements' names in ascending order", n, floor=1)
     # ---------------------------------------------------------------- R14-chain
-    sortrules.counter_chain(chk, "R14-chain", prog, ["sort::sort", "sort::sort_objectlist_full"])
+    sortrules.counter_chain(chk, "R14-chain", prog, sorted(f for f in prog.reachable(["sort::sort"]) if prog.bodies[f].file == "a2lfile/src/sort.rs" and prog.bodies[f].kind != "Closure"), floor=4)
     # uid handed from call to call: arg1 of call k+1 derives from the result of a sort_objectlist_full call (or the if_data counter)
     n = 0
     for ev in S.events:
@@ -110,17 +110,23 @@ def run(chk):
         fb = prog.bodies[fid]
         Sf = sym.Analyzer(prog, opaque=[r"sort::.*", r".*::get_layout_mut", r".*::get_layout"]).summary(fid)
         sorts = [e for e in Sf.events if e[0] == "call" and e[3] == fid and re.search(r"(sort_by|sort_by_key|sort_unstable_by|sort_unstable_by_key|sort)$", mir.strip_generics(e[1])) and e[2]]
-        writes = [e for e in Sf.events if e[0] == "write" and e[3] == fid]
+        An = sym.Analyzer(prog)
+        writes = [e for e in Sf.events if e[0] == "write" and (e[3] == fid or not An.is_known(e[3]))]
         for se in sorts:
             lists = {refs.term_path(t)[1] for t in se[2][0]} - {None, ""}
             for we in writes:
                 r, p = refs.term_path(we[1])
                 if not p or not p.endswith("BlockInfo.uid"):
                     continue
+                if isinstance(r, tuple) and r[0] == "call" and r[1].endswith("get_layout_mut") and r[2] and r[2][0] is not None:
+                    # the layout record reached through the accessor of an element of a list: <list>/<element>/BlockInfo.uid
+                    r2, p2 = refs.term_path(r[2][0])
+                    if p2:
+                        p = p2 + "/*/" + p
                 for lp in lists:
                     if p.startswith(lp + "/"):
                         nseq += 1
-                        if not fb.dominates(se[6], we[5]):
+                        if not fb.dominates(se[6], we[5]) or (se[6] == we[5]):
                             chk.add(Finding("R14-seq", "R14-seq::%s::%s" % (mir.strip_generics(fid), lp.split("/")[-1]), "%s numbers the elements of %s before the list is sorted: the uids (which decide the order in the written file) carry the old order" % (fid, lp.split("/")[-1]), fb.where(we[4])))
     chk.rule("R14-seq", "lists that are sorted and numbered in the same function: the sort dominates the uid assignment", nseq, floor=1)
     # ---------------------------------------------------------------- R14-table
